@@ -3,6 +3,7 @@ package main
 // Symbolic executor over go/ssa (naive form).
 
 import (
+	"os"
 	"go/constant"
 	"fmt"
 	"go/ast"
@@ -39,6 +40,7 @@ type Exec struct {
 	obls       []*Obligation
 	compSorts  map[string]Sort
 	heap0      *Heap
+	cur        *State // path state of the instruction being executed (for facts about lazily created heap constants)
 	epochN     int
 	alloc0     *Term
 	closureIDs map[*SV]*Term
@@ -87,6 +89,13 @@ func (x *Exec) assumedImplicit(kind, label string) bool {
 }
 
 func (x *Exec) oblige(st *State, kind, label string, tags []string, goal *Term, pos token.Pos) {
+	if len(st.heap.facts) > 0 {
+		fs := st.heap.facts
+		st.heap.facts = nil
+		for _, f := range fs {
+			st.assume(f)
+		}
+	}
 	if !st.dead && !IsTrue(goal) && x.assumedImplicit(kind, label) {
 		x.notes = append(x.notes, "assumed (unchecked, option assume-implicit): "+kind+"["+label+"] in "+x.unit.Key)
 		if IsFalse(goal) {
@@ -203,6 +212,9 @@ func (x *Exec) execBlock(fr *Frame, st *State, b *ssa.BasicBlock, prev *ssa.Basi
 			}
 		}
 	}
+	if fr.depth == 0 && !fr.pure && prev != nil {
+		x.checkLoopExits(fr, st, prev, b)
+	}
 	x.bindPhis(fr, st, b, prev)
 	if _, seen := fr.pcAt[b]; !seen {
 		fr.pcAt[b] = len(st.pc)
@@ -222,6 +234,7 @@ func (x *Exec) execBlock(fr *Frame, st *State, b *ssa.BasicBlock, prev *ssa.Basi
 		if st.dead {
 			return
 		}
+		x.cur = st
 		switch i := ins.(type) {
 		case *ssa.Phi:
 			continue
@@ -250,6 +263,9 @@ func (x *Exec) execBlock(fr *Frame, st *State, b *ssa.BasicBlock, prev *ssa.Basi
 			x.execBlock(fr, st, b.Succs[0], b, k)
 			return
 		case *ssa.Return:
+			if fr.depth == 0 && !fr.pure {
+				x.checkLoopExits(fr, st, b, nil)
+			}
 			var res *SV
 			switch len(i.Results) {
 			case 0:
@@ -334,6 +350,9 @@ func (x *Exec) execRest(fr *Frame, st *State, b *ssa.BasicBlock, from int, k ret
 			x.execBlock(fr, st, b.Succs[0], b, k)
 			return
 		case *ssa.Return:
+			if fr.depth == 0 && !fr.pure {
+				x.checkLoopExits(fr, st, b, nil)
+			}
 			var res *SV
 			switch len(i.Results) {
 			case 0:
@@ -573,6 +592,9 @@ func (x *Exec) execInstr(fr *Frame, st *State, ins ssa.Instruction) {
 		mt := i.Type().Underlying().(*types.Map)
 		vn, mv, dn, md := x.mapComps(st.heap, mt, i.Type())
 		x.setComp(st.heap, dn, Store(md, r, ConstArray(ArraySort(w.SortOf(mt.Key()), SBool), TFalse)))
+		// cardinality: a new map is empty
+		w.declFun("maplen", "(Int "+string(ArraySort(w.SortOf(mt.Key()), SBool))+") "+string(w.IS))
+		st.assume(Eq(App("maplen", w.IS, r, ConstArray(ArraySort(w.SortOf(mt.Key()), SBool), TFalse)), w.Int(0)))
 		_ = vn
 		_ = mv
 		fr.vals[i] = TV(r)
@@ -584,6 +606,15 @@ func (x *Exec) execInstr(fr *Frame, st *State, ins ssa.Instruction) {
 		x.oblige(st, "mapnil", x.srcLabel(i.Pos(), "index"), x.implicitTags(fr, "nil"), Not(Eq(m, IntLit(0, SInt))), i.Pos())
 		kt, vt := x.term(fr, st, i.Key), x.term(fr, st, i.Value)
 		vn, mv, dn, md := x.mapComps(st.heap, mt, i.Map.Type())
+		{
+			// cardinality: an insertion adds one element exactly when the key was absent (ground instance
+			// of |d[k := true]| = |d| + (k in d ? 0 : 1) for this update)
+			w.declFun("maplen", "(Int "+string(ArraySort(w.SortOf(mt.Key()), SBool))+") "+string(w.IS))
+			oldD := Select(md, m)
+			newD := Store(oldD, kt, TTrue)
+			st.assume(w.Le(w.Int(0), App("maplen", w.IS, m, oldD)))
+			st.assume(Eq(App("maplen", w.IS, m, newD), w.Add(App("maplen", w.IS, m, oldD), Ite(Select(oldD, kt), w.Int(0), w.Int(1)))))
+		}
 		x.setComp(st.heap, vn, Store(mv, m, Store(Select(mv, m), kt, vt)))
 		x.setComp(st.heap, dn, Store(md, m, Store(Select(md, m), kt, TTrue)))
 		x.noteWrite(vn, m)
@@ -1378,6 +1409,28 @@ func (x *Exec) enterLoopHead(fr *Frame, st *State, b, prev *ssa.BasicBlock, lp *
 	return true
 }
 
+// checkLoopExits: obligations of `loop N exit[...]` clauses on the edge from -> to when it leaves the body of
+// loop N (to == nil: a return inside the body).
+func (x *Exec) checkLoopExits(fr *Frame, st *State, from, to *ssa.BasicBlock) {
+	li := x.eng.loopInfo(fr.fn)
+	if li == nil || fr.iterHeap == nil {
+		return
+	}
+	for _, lp := range li.headers {
+		if lp.ordinal != 0 || !lp.body[from] || (to != nil && lp.body[to]) {
+			continue
+		}
+		spec := x.eng.loopSpec(fr.fn, lp.ordinal)
+		if spec == nil {
+			continue
+		}
+		for _, c := range spec.Exits {
+			g := x.evalClauseBool(c, x.loopEnv(fr, st), st)
+			x.oblige(st, "exit", fmt.Sprintf("loop%d:%s", lp.ordinal, c.Label), c.Tags, g, from.Instrs[len(from.Instrs)-1].Pos())
+		}
+	}
+}
+
 // checkRunning proves and then assumes the unit's running invariants (stepping stones) after a
 // heap-modifying step of the function under verification.
 func (x *Exec) checkRunning(fr *Frame, st *State, pos token.Pos) {
@@ -1491,6 +1544,9 @@ func (x *Exec) havocLoop(fr *Frame, st *State, lp *loopDesc) {
 			fr.cells[a] = nv.T
 		}
 	}
+	if os.Getenv("GOVC_DEBUG_EFF") != "" {
+		fmt.Fprintf(os.Stderr, "havocLoop %s loop%d all=%v comps=%v\n", fr.fn, lp.ordinal, eff.all, eff.comps)
+	}
 	if eff.all {
 		x.havocAllHeap(st)
 		return
@@ -1505,6 +1561,12 @@ func (x *Exec) havocLoop(fr *Frame, st *State, lp *loopDesc) {
 		if !ok {
 			s = x.eng.compSortByName(x, c)
 			if s == "" {
+				// not touched on this path yet: remember the havoc for the first touch
+				if st.heap.pending == nil {
+					st.heap.pending = map[string]string{}
+				}
+				x.epochN++
+				st.heap.pending[c] = fmt.Sprintf("p%d", x.epochN)
 				continue
 			}
 		}
@@ -1537,6 +1599,7 @@ func (x *Exec) havocAllHeap(st *State) {
 	}
 	x.epochN++
 	st.heap.epoch = fmt.Sprintf("e%d", x.epochN)
+	st.heap.pending = nil
 	na := x.w.Fresh("alloc", SInt)
 	st.assume(App("<=", SBool, st.heap.alloc, na))
 	st.heap.alloc = na
